@@ -13,6 +13,7 @@ pub mod c14;
 pub mod c15;
 pub mod c19;
 pub mod refcodec;
+pub mod sel_l;
 pub mod setmodel;
 
 use std::collections::HashMap;
